@@ -238,5 +238,10 @@ SWEEP = ["concurrent/test_execution_queue.cpp"]
 
 # name anchors (validated by tools/rename_sweep.py; a vanished name is exit 2, see core.check_anchor_names)
 ANCHORS = {
+    '_consume_function': ['^babylon::ConcurrentExecutionQueue(<|$)'],
     '_events': ['^babylon::ConcurrentExecutionQueue(<|$)'],
+    '_executor': ['^babylon::ConcurrentExecutionQueue(<|$)'],
+    'reserve_and_clear': ['^babylon::ConcurrentBoundedQueue(<|$)'],
+    'start_consumer': ['^babylon::ConcurrentExecutionQueue(<|$)'],
+    'try_pop_n': ['^babylon::ConcurrentBoundedQueue(<|$)'],
 }
